@@ -19,7 +19,7 @@ func ruleForgetSites(c *Ctx, p *Prog, rule string, se *shimEndpoints) {
 	seen := map[ssa.Instruction]bool{}
 	for _, fn := range WithClosures(se.Create) {
 		EachInstr(fn, func(i ssa.Instruction) {
-			if !IsCall(i, "(*sync.Map).Delete") || seen[i] {
+			if !IsCall(i, "(*sync.Map).Delete", "(*sync.Map).LoadAndDelete", "(*sync.Map).CompareAndDelete") || seen[i] {
 				return
 			}
 			seen[i] = true
@@ -36,6 +36,15 @@ func ruleForgetSites(c *Ctx, p *Prog, rule string, se *shimEndpoints) {
 			}
 			if openRollback(se, i) {
 				ok = true
+			}
+			// a shared helper (releaseSession) is judged by all the endpoints that run it
+			for nm, ep := range se.all() {
+				if nm == "close" || nm == "poll" || ep == nil {
+					continue
+				}
+				if (owner == ep || inSplicedBody(ep, i)) && !(nm == "open-inner" && openRollback(se, i)) {
+					ok = false
+				}
 			}
 			c.Check(rule, fmt.Sprintf("forget-site#%d:in-close-or-poll", n), p, i.Pos(), ok, "the session is forgotten by the close endpoint or by the poll endpoint itself", "a session is deleted from the table in "+FuncName(fn)+" (a callback / another endpoint): e.g. an error callback that forgets the session when the backend closes makes the next poll answer 'unknown session' instead of delivering the messages already received")
 		})
@@ -887,6 +896,34 @@ func ruleOnlyWrappedBy(c *Ctx, p *Prog, rule string) {
 		}
 	}
 	visit(rp, 0)
+	// the shim serves websocket-open requests itself: the wrapper it is given for them is the
+	// session handler of the cache as it is when hostProxy runs (a method value taken at
+	// package initialisation binds the still-nil cache, i.e. "sessions disabled")
+	for _, call := range Calls(hp, ModPath+"/agent/websockets.Proxy") {
+		a := PArgs(CallOf(call))
+		okW, why := false, "it is not a value this rule can resolve"
+		if len(a) > 6 && a[6] != nil {
+			okW = true
+			for _, r := range Roots(a[6]) {
+				mc, isMC := r.(*ssa.MakeClosure)
+				fn, _ := func() (*ssa.Function, bool) {
+					if !isMC {
+						return nil, false
+					}
+					f, ok := mc.Fn.(*ssa.Function)
+					return f, ok
+				}()
+				switch {
+				case fn != nil && isBoundWrapper(fn) && strings.HasSuffix(fn.Name(), "SessionHandler$bound") && TopFunc(mc.Parent()) == hp && len(mc.Bindings) == 1 && PathOf(mc.Bindings[0]) == "*global:sessionLRU":
+				case fn != nil && !isBoundWrapper(fn) && TopFunc(mc.Parent()) == hp && len(Calls(fn, "(*"+ModPath+"/agent/sessions.Cache).SessionHandler")) == 1:
+				default:
+					okW = false
+					why = "it is " + PathOf(a[6]) + ", not sessionLRU.SessionHandler evaluated in hostProxy"
+				}
+			}
+		}
+		c.Check(rule, "hostProxy:shim-open-wrapped-by-session-handler", p, call.Pos(), okW, "websocket-open requests, which the shim serves itself, are wrapped by the session handler of the configured cache", "the wrapper handed to the websocket shim for open requests is not the session handler of the cache configured at start-up ("+why+"): shimmed websocket opens bypass session handling — the backend gets the session cookie and none of the session's cookies")
+	}
 	c.Check(rule, "hostProxy:proxy-only-behind-session-handler", p, hp.Pos(), bad == "" && nSess == 1, "the reverse proxy is handed to SessionHandler and to nothing else: every request and response passes the session handler", "the backend-facing reverse proxy is reachable around the session handler ("+bad+"): requests of that route keep the session cookie, miss the jar's cookies, and their responses' Set-Cookie reach the client")
 }
 
